@@ -13,7 +13,8 @@ import Tickit.Gen.WinInputCfg
     key: stealing front-most child, focus chain innermost first, own handlers, other children; stop at the first
          claim; first occurrences ................................ `key_order`, `key_order_reference`
     mouse: front-most visible window under the pointer (or stealing) before anything behind or around it
-         ........................................................... `mouse_target`, `mouse_target_reference`
+         ........................................................... `mouse_target`, `mouse_target_reference`,
+                                                                     `mouse_target_owner` (= the painter's-model owner)
     position relative to the receiving window ...................... `mouse_relative`, `mouse_relative_absGeometry`
     hidden windows and their descendants never receive input ....... `hidden_never` (every handler behaviour, every
          outcome), `reference_orders_visible`
@@ -141,6 +142,27 @@ theorem mouse_target_reference (fuel F : Nat) (st st' : St) (win : WinTree.Id) (
     rw [hw] at hr
     obtain ⟨pre, e, post, h1, h2, _, _⟩ := offerAll_some .mouse _ _ w hr.symm
     exact ⟨pre, e, post, h1, h2⟩
+
+/-- **mouse_target, in the painter's model.**  When no window steals input, the first window a mouse event is offered
+    to is the window that owns the terminal cell under the pointer in the composition of the tree (`WinTree.owner`:
+    front-most visible window covering the cell, children over their parent, earlier siblings over later ones,
+    hidden subtrees ignored). -/
+theorem mouse_target_owner (t : Tree) (hwf : WF t)
+    (hns : ∀ (i : WinTree.Id) (w : Win), t.wins[i]? = some w → w.stealInput = false)
+    (w0 : Win) (hw0 : t.wins[0]? = some w0) (hf0 : w0.freed = false) (hv0 : w0.isVisible = true) (hp0 : w0.parent = none)
+    (l c : Int) (hin : w0.rect.memb l c = true) (ev : Ev) (hl : ev.line = l - w0.rect.top) (hc : ev.col = c - w0.rect.left)
+    (ws : List (WinTree.Id × Ev)) (hv : mouseVisits t (t.wins.size + 1) 0 ev = some ws) :
+    headWin ws = owner t l c := by
+  have hvc : visibleChain t 1 0 = true := by
+    unfold visibleChain
+    simp [hw0, hf0, hv0, hp0]
+  have := mouseVisits_owner hwf hns (t.wins.size + 1) 0 ev 1 w0 ws hw0 hvc (by unfold treeFuel; omega) hv
+  rw [this]
+  unfold owner
+  rw [ownerIn]
+  simp only [hw0, hv0, hf0, hin, Bool.not_true, Bool.or_self, Bool.false_eq_true, if_false, Nat.add_sub_cancel, hl, hc]
+  generalize w0.children.findSome? (fun ch => ownerIn t t.wins.size ch (l - w0.rect.top) (c - w0.rect.left)) = o
+  cases o <;> rfl
 
 /-- **mouse_relative.**  Every window that is offered the event gets it with the kind (type, button, modifiers) of
     the event dispatched and with the position made relative to itself: the position dispatched to `win` minus the
@@ -655,6 +677,25 @@ example : (∃ st', handleMouse Cfg.repaired (routeFuel richSt.tree) richSt 0 pr
     OriginSum richSt.tree (some 3) 1 2 ∧ OriginSum richSt.tree (some 0) 0 0 :=
   ⟨mouse_returns (by decide +kernel), by decide +kernel,
    origin_of_test (f := treeFuel richSt.tree) (by decide +kernel), origin_of_test (f := treeFuel richSt.tree) (by decide +kernel)⟩
+
+open Scenario in
+/-- `mouse_target_owner`: three windows stacked over cell (0,0), none stealing: the reference order starts with the
+    front-most one, 3, and that is the owner of the cell in the painter's model. -/
+example : ∃ st, threeStackedMouse .close = some st ∧ WF st.tree ∧
+    (∀ (i : WinTree.Id) (w : Win), st.tree.wins[i]? = some w → w.stealInput = false) ∧
+    (mouseVisits st.tree (st.tree.wins.size + 1) 0 press).map headWin = some (some 3) ∧ owner st.tree 0 0 = some 3 := by
+  have key : ∀ (o : Option St), (o.map fun s => wfCheck s.tree && noStealCheck s.tree &&
+        ((mouseVisits s.tree (s.tree.wins.size + 1) 0 press).map headWin == some (some 3)) &&
+        (owner s.tree 0 0 == some 3)) = some true →
+      ∃ st, o = some st ∧ WF st.tree ∧ (∀ (i : WinTree.Id) (w : Win), st.tree.wins[i]? = some w → w.stealInput = false) ∧
+        (mouseVisits st.tree (st.tree.wins.size + 1) 0 press).map headWin = some (some 3) ∧ owner st.tree 0 0 = some 3 := by
+    intro o h
+    cases o with
+    | none => simp at h
+    | some st =>
+      simp only [Option.map_some, Option.some.injEq, Bool.and_eq_true, beq_iff_eq] at h
+      exact ⟨st, rfl, wfCheck_sound h.1.1.1, noStealCheck_sound h.1.1.2, h.1.2, h.2⟩
+  exact key _ (by decide +kernel)
 
 open Scenario in
 /-- `hidden_never`, `drag_start_first`, `drag_drop_stop_order`: histories with the hypotheses — a handler that hides
